@@ -243,3 +243,43 @@ def run(F, R, tier):
     R.check(not bad, "C08.R6", "C08.R6:no-key-deletion", "-",
             "no fs::remove_* / rename-away call in the agent has a path derived from the key directory (%d removal sites inspected)" % n_rm,
             "key files may be deleted or moved away: %s" % bad)
+
+    # ------------------------------------------------------------------ R7 the key file is named by the guid, spelled the same everywhere
+    # (store under one spelling and look up under another = "stored and read back" at negotiation time, not found after a restart)
+    R.rule("C08.R7", "the key file name is the guid verbatim at store, at the read-back check and at the restart lookup")
+    sites = []
+    st = F.body_of(KK + "store_local_key")
+    if st:
+        B = mir.Body(st, F)
+        for bi, w, r, t in B.calls_named("PathBuf::join", "Path::join"):
+            sites.append(("store_local_key", B, t["args"][1], lambda o: o[0] == "param" and o[1] == "key" and tuple(o[2]) == ("guid",), bi))
+    fl = F.body_of(KK + "fetch_local_key")
+    if fl:
+        B = mir.Body(fl, F)
+        for bi, w, r, t in B.calls_named("PathBuf::join", "Path::join"):
+            sites.append(("fetch_local_key", B, t["args"][1], lambda o: o[0] == "param" and o[1] == "key_guid" and not o[2], bi))
+    ck = F.body_of(KK + "check_local_key")
+    if ck:
+        B = mir.Body(ck, F)
+        for bi, w, r, t in B.calls_named("KeyKeeper::fetch_local_key"):
+            sites.append(("check_local_key", B, t["args"][1], lambda o: o[0] == "param" and o[1] == "key" and tuple(o[2]) == ("guid",), bi))
+    fk = F.body_of(KK + "fetch_key")
+    if fk:
+        B = mir.Body(fk, F)
+        for bi, w, r, t in B.calls_named("KeyKeeper::fetch_local_key"):
+            sites.append(("fetch_key", B, t["args"][1], lambda o: o[0] == "param" and o[1] == "key_guid" and not o[2], bi))
+    lpb = F.body_of(KK + "loop_poll")
+    if lpb:
+        B = mir.Body(lpb, F)
+        for bi, w, r, t in B.calls_named("KeyKeeper::fetch_key"):
+            sites.append(("loop_poll", B, t["args"][1], lambda o: o[0] == "call" and q.ends(o[1], "key::get_status") and o[3][-1:] == ("keyGuid",) or
+                          (o[0] == "call" and q.ends(o[1], "key::get_status") and "keyGuid" in o[3]), bi))
+    for name, B, o, pred, bi in sites:
+        org = B.origins(o)
+        lossy = q.lossy_via(B, o)
+        ok = bool(org) and all(pred(x) for x in org) and not lossy
+        R.check(ok, "C08.R7", R.key("C08.R7", KK + name, "guid-verbatim"), q.where(B, bi),
+                "%s: the file name / lookup key is the guid as given (no case folding, trimming or defaulting)" % name,
+                "%s: the guid is %s on the way to the file name (origins %s): a file stored under one spelling is not found under the other "
+                "after a restart" % (name, "transformed by " + ", ".join(lossy) if lossy else "not the expected value", sorted(map(str, org))))
+    R.floor("C08.R7", len(sites), 6, "places where the guid becomes a key file name")
